@@ -25,12 +25,12 @@ PROP_MODULES = {
     'C12': ['obligations.persist_ops'],
     'C05': ['obligations.conc_ops', 'obligations.block_ops', 'obligations.cache_ops', 'obligations.persist_ops', 'obligations.recipes_ops'],
     'C07': ['obligations.cache_ops', 'obligations.queue_ops', 'obligations.persist_ops', 'obligations.block_ops', 'obligations.persistence_ops'],
-    'C14': ['obligations.cache_ops', 'obligations.queue_ops', 'obligations.fanout_ops', 'obligations.block_ops'],
+    'C14': ['obligations.cache_ops', 'obligations.queue_ops', 'obligations.fanout_ops', 'obligations.block_ops', 'obligations.django_ops'],
     'C16': ['obligations.e2_jobs', 'obligations.memo_ops'],
 }
 for _p in ('C04', 'C08'):
     PROP_MODULES[_p] = PROP_MODULES[_p] + ['obligations.queue_ops']
-PROP_MODULES['C08'] = PROP_MODULES['C08'] + ['obligations.block_ops', 'obligations.e2_jobs']
+PROP_MODULES['C08'] = PROP_MODULES['C08'] + ['obligations.block_ops', 'obligations.e2_jobs', 'obligations.persist_ops']
 
 
 def jobs_for(prop, tier):
